@@ -448,6 +448,38 @@ Outcome run_c06(const Case &c, bool thorough) {
         if (sem_file_gone(name)) { co.fail("nonowner-free", "a non-owner freed its handle and the name disappeared"); break; }
       }
       check_values("after free");
+    } else if (s.cmd == "race") {
+      // an OPEN-mode open of an existing name, parked at one of the library's sem_open calls while the owner frees the name.  Whatever the
+      // interleaving, the opener ends up (a) with NULL, (b) attached to the old counter (opened before the removal) or (c) with a FRESH
+      // counter - and a fresh counter carries exactly the initial value the opener gave
+      long nidx = 3 + (s.args.size() > 1 ? s.args[1] : 0);            // names 3.. are used by race steps only
+      string name = co.uniq + string((size_t)c.pad, 'n') + "r" + std::to_string(nidx % 3); co.names_used.insert(name);
+      int w2 = (w + 1) % P; if (co.ws[(size_t)w2].dead) co.respawn(w2);
+      long v0 = 1 + (s.args.size() > 2 ? s.args[2] % 3 : 0), vn = 4 + (s.args.size() > 3 ? s.args[3] % 3 : 0);
+      string a0 = co.call(w2, "sem_new 7 " + name + " " + std::to_string(v0) + " 1");
+      if (a0.rfind("ok", 0) != 0) { co.out.inconclusive = true; break; }
+      int pause = s.pause > 0 ? 1 + (s.pause - 1) % 4 : 2;
+      co.send(w, "sem_new 7 " + name + " " + std::to_string(vn) + " 0 pause=" + std::to_string(pause));
+      string r1;
+      if (!co.recv(w, r1, 10000)) { co.out.inconclusive = true; break; }
+      bool paused = r1.rfind("paused", 0) == 0;
+      if (paused) {
+        co.call(w2, "sem_free 7");                                  // creator = owner: the name goes away
+        string m = "resume\n"; ssize_t wr = write(co.ws[(size_t)w].fd, m.data(), m.size()); (void)wr;
+        if (!co.recv(w, r1, 10000)) { co.out.inconclusive = true; break; }
+      } else co.call(w2, "sem_free 7");
+      co.classes.insert(paused ? "open_vs_owner_free_paused_at_" + std::to_string(pause) : "open_vs_owner_free_not_reached");
+      if (r1.rfind("ok", 0) == 0) {
+        sem_t *pk = peek_open(name);
+        if (paused && pk != SEM_FAILED) {
+          int v = -1; sem_getvalue(pk, &v);
+          if (v != vn) co.fail("race-open-fresh-value", "an OPEN-mode p_semaphore_new(name, " + std::to_string(vn) + ") that overlapped the owner's free of the name (parked at point " + std::to_string(pause) + ") returned a handle on a fresh counter with value " + std::to_string(v) + " instead of " + std::to_string(vn));
+          co.classes.insert("open_vs_owner_free_fresh_counter");
+        } else if (paused) co.classes.insert("open_vs_owner_free_attached_to_old_counter");
+        if (pk != SEM_FAILED) sem_close(pk);
+        co.call(w, "sem_own 7"); co.call(w, "sem_free 7");
+      } else co.classes.insert("open_vs_owner_free_returned_null");
+      sem_unlink(("/" + vi::key13(name + "_p_sem_object")).c_str());
     } else if (s.cmd == "phase") {
       // k-exclusion: all live handles of one generation run rounds concurrently; concurrency must never exceed the counter
       if (!handles[key].live) continue;
@@ -805,9 +837,9 @@ rc::Gen<int> rng(int lo, int hi) { return rc::gen::resize(100, rc::gen::inRange(
 rc::Gen<Step> genStep(const string &prop, bool kills) {
   using namespace rc;
   if (prop == "C06") {
-    auto cmd = gen::weightedElement<string>({{8, "new"}, {12, "acq"}, {5, "rel"}, {2, "own"}, {3, "free"}, {2, "phase"}});
+    auto cmd = gen::weightedElement<string>({{8, "new"}, {12, "acq"}, {5, "rel"}, {2, "own"}, {3, "free"}, {2, "phase"}, {2, "race"}});
     return gen::map(gen::tuple(rng(0, 3), cmd, rng(0, 3), rng(0, 2), gen::element<long>(0, 1, 2, 3, 7), rng(0, 2), kills ? gen::weightedOneOf<int>({{6, gen::just(0)}, {1, rng(1, 9)}}) : gen::just(0)),
-                    [](const std::tuple<int, string, int, int, long, int, int> &t) { Step s; s.worker = std::get<0>(t); s.cmd = std::get<1>(t); s.args = {std::get<2>(t), std::get<3>(t), std::get<4>(t), std::get<5>(t)}; if (s.cmd == "new" || s.cmd == "free" || s.cmd == "acq") s.kill = std::get<6>(t); return s; });
+                    [](const std::tuple<int, string, int, int, long, int, int> &t) { Step s; s.worker = std::get<0>(t); s.cmd = std::get<1>(t); s.args = {std::get<2>(t), std::get<3>(t), std::get<4>(t), std::get<5>(t)}; if (s.cmd == "new" || s.cmd == "free" || s.cmd == "acq") s.kill = std::get<6>(t); if (s.cmd == "race") s.pause = 1 + (std::get<2>(t) + 2 * std::get<5>(t)) % 4; return s; });
   }
   if (prop == "C07") {
     auto cmd = gen::weightedElement<string>({{8, "new"}, {8, "store"}, {8, "load"}, {5, "lock"}, {3, "unlock"}, {1, "own"}, {3, "free"}, {2, "phase"}, {2, "race"}});
